@@ -40,8 +40,8 @@ def check_cell(ctx, cell, rng, tag="cell"):
     ctx.cell("pair", "placement", cell.placement, cell.form)
     if not p.outcome.ok:
         o = p.outcome
-        refusal_ok = cell.b64 == "false" and o.is_a("UnicodeDecodeError", "UnicodeError") or \
-            (cell.b64 != "absent" and cell.form == "flat" and o.is_a("UnicodeDecodeError"))
+        # an unencoded payload that is not text cannot be a JSON string (flattened form); the compact form detaches it and must not refuse
+        refusal_ok = cell.b64 != "absent" and cell.form == "flat" and o.is_a("UnicodeDecodeError", "UnicodeError")
         if refusal_ok:
             ctx.count("refused_unrepresentable")
             return None
